@@ -246,7 +246,7 @@ func TestC17(t *testing.T) {
 		}
 
 		// operations
-		op := rapid.SampledFrom([]string{"cmp", "cmp", "cmp-undeclared", "in", "like", "sort", "colcmp", "predicate", "equals"}).Draw(t, "op")
+		op := rapid.SampledFrom([]string{"cmp", "cmp", "cmp-undeclared", "in", "like", "sort", "colcmp", "predicate", "equals", "in-upper", "sort2"}).Draw(t, "op")
 		opDesc, fvia := "", "as constructed"
 		full := func() string { return desc() + "\nop " + opDesc + " (filtered frame: " + fvia + ")" }
 		// comparisons, in-lists and like also run on the column as other operations rebuild it (declared enums):
@@ -276,6 +276,100 @@ func TestC17(t *testing.T) {
 			ftab = obs
 		}
 		switch op {
+		case "in-upper":
+			// two declared values that differ only in case; after the ToUpper built-in both codes carry the same string and
+			// value-based filters must find the rows of both
+			if !declared || size < 2 || n < 2 || wantErr != "" {
+				break
+			}
+			lo := "twin-" + strings.ToLower(enumConf[0])
+			decl2 := append([]string{lo, strings.ToUpper(lo)}, enumConf...)
+			if len(decl2) > 255 {
+				decl2 = decl2[:255]
+			}
+			data2 := make([]*string, n)
+			var wantRows []int
+			for r := range data2 {
+				switch r % 4 {
+				case 0:
+					data2[r] = hx.Sp(decl2[0])
+					wantRows = append(wantRows, r)
+				case 1:
+					data2[r] = hx.Sp(decl2[1])
+					wantRows = append(wantRows, r)
+				case 2:
+					if data[r] != nil && (len(decl2) == 255+0 && *data[r] == enumConf[len(enumConf)-1] || false) {
+						data2[r] = nil
+					} else {
+						data2[r] = data[r]
+					}
+				}
+			}
+			for r, p := range data2 { // values cut off by the 255 limit
+				if p != nil {
+					ok := false
+					for _, v := range decl2 {
+						if v == *p {
+							ok = true
+						}
+					}
+					if !ok {
+						data2[r] = nil
+					}
+				}
+			}
+			fr := qframe.New(map[string]interface{}{"e": data2, "id": hx.Iota(n)}, newqf.Enums(map[string][]string{"e": decl2}))
+			if fr.Err != nil {
+				t.Fatalf("twin values: %v\n%s", fr.Err, full())
+			}
+			up := fr.Apply(qframe.Instruction{Fn: "ToUpper", DstCol: "e", SrcCol1: "e"})
+			target := strings.ToUpper(lo)
+			kind := rapid.SampledFrom([]string{"in", "like", "ilike", "=", "predicate"}).Draw(t, "upperfilter")
+			opDesc = fmt.Sprintf("after ToUpper (values %q and %q now equal): filter e %s %q", decl2[0], decl2[1], kind, target)
+			var res qframe.QFrame
+			switch kind {
+			case "in":
+				res = up.Filter(qframe.Filter{Column: "e", Comparator: "in", Arg: []string{target, "zz-not-there"}})
+			case "predicate":
+				res = up.Filter(qframe.Filter{Column: "e", Comparator: func(p *string) bool { return p != nil && *p == target }})
+			default:
+				res = up.Filter(qframe.Filter{Column: "e", Comparator: kind, Arg: target})
+			}
+			if res.Err != nil {
+				if kind == "=" {
+					break // a constant that names two codes may be refused for =
+				}
+				t.Fatalf("filter failed: %v\n%s", res.Err, full())
+			}
+			if got := res.MustIntView("id").Slice(); fmt.Sprint(got) != fmt.Sprint(wantRows) {
+				t.Fatalf("rows %v, but the cells equal to %q stand in rows %v\n%s", clipInts(got), target, clipInts(wantRows), full())
+			}
+		case "sort2":
+			// the enum as second key behind a key with nulls: among the rows whose first key is null the declared order holds too
+			if !declared || n < 2 || wantErr != "" {
+				break
+			}
+			ks := make([]*string, n)
+			for r := range ks {
+				if r%3 != 0 {
+					ks[r] = hx.Sp([]string{"x", "y"}[r%2])
+				}
+			}
+			fr := qframe.New(map[string]interface{}{"k": ks, "e": data, "id": hx.Iota(n)}, newqf.Enums(map[string][]string{"e": enumConf}))
+			if fr.Err != nil {
+				t.Fatalf("frame with a nullable first key: %v\n%s", fr.Err, full())
+			}
+			t3 := hx.Table{Cols: []hx.Col{{Name: "e", Kind: hx.KEnum, S: data, Enum: enumConf}, {Name: "id", Kind: hx.KInt, I: hx.Iota(n)}, {Name: "k", Kind: hx.KString, S: ks}}}
+			os := []hx.Order{{Col: "k", NullLast: rapid.Bool().Draw(t, "knulllast")}, {Col: "e", Reverse: rapid.Bool().Draw(t, "erev"), NullLast: rapid.Bool().Draw(t, "enulllast")}}
+			opDesc = "sort " + hx.OrdersString(os)
+			res := fr.Sort(hx.BuildOrders(os)...)
+			got, err := hx.Observe(res)
+			if err != nil || res.Err != nil {
+				t.Fatalf("sort failed: %v %v\n%s", res.Err, err, full())
+			}
+			if msg := checkSorted(t3, got, os); msg != "" {
+				t.Fatalf("sort by a nullable key, then the enum: %s\n%s", msg, full())
+			}
 		case "predicate":
 			// a Go function as comparator: called for (or at least answering for) every row, null rows included
 			k := boundary[rapid.IntRange(0, len(boundary)-1).Draw(t, "predrank")] % size
